@@ -31,6 +31,8 @@ class Exec:
         self.spec = None
         self.forced_cleanup = False
         self.helper_hung = False
+        self.deferred_after = None
+        self.deferred_after_probe = None
 
     @property
     def log(self):
@@ -73,6 +75,7 @@ def execute(spec, keep_coords=False):
             if h.helper_threads and not h.join_helpers():
                 ex.helper_hung = True
         ex.state_before_cleanup = str(RE.state)
+        ex.deferred_after = bool(RE.deferred_pause_requested)
         if RE.state == "paused":
             # not part of the judged history: bring the engine down so that the case can end
             ex.forced_cleanup = True
@@ -84,8 +87,22 @@ def execute(spec, keep_coords=False):
             if not inj["fired"]:
                 inj["fired"] = True
                 inj["expired"] = True
-        if spec.get("probe", True) and not ex.forced_cleanup:
+        if spec.get("then") and not ex.forced_cleanup:
+            # a second real call on the same engine (requests still in flight may take effect in it)
+            h.log.append(("harness", "second-call"))
+            for inj in h.injections:
+                if inj.get("expired") and inj.get("carry"):
+                    inj["fired"] = False
+            d2 = devices(h, faults, **spec.get("dev_kwargs", {}))
+            plan2 = CORPUS[spec["then"]](h, d2)
+            r = h.call("RE2", RE, plan2)
+            ex.calls.append(("RE2", r))
+            if RE.state == "paused":
+                h.call("cleanup-abort", RE.abort)
+            ex.final_state = str(RE.state)
+        elif spec.get("probe", True) and not ex.forced_cleanup:
             ex.probe = h.probe()
+            ex.deferred_after_probe = bool(RE.deferred_pause_requested)
     except Stuck:
         ex.stuck = True
         ex.final_state = str(RE.state)
